@@ -412,6 +412,8 @@ func c11Gen(r *Rand, tier string) []string {
 		}
 	}
 	out = append(out, c11ArityGrid(r)...)
+	out = append(out, c11PercentGrid(r)...)
+	out = append(out, c11CompareGrid(r)...)
 	if tier == "thorough" {
 		out = append(out, c11Exhaustive(r)...)
 		out = append(out, c11LookupCases(r, 20000, true)...)
